@@ -981,6 +981,9 @@ class Transaction(object):
                 inputs[n].script = script if not inputs[n].script else inputs[n].script + script
                 inputs[n].keys = script.keys
                 inputs[n].signatures = script.signatures
+                # The hash type the signature was made with is its last byte, verify() uses it to build the transaction hash
+                if script.signatures:
+                    inputs[n].hash_type = script.signatures[0].hash_type
                 if not script.script_types:
                     inputs[n].script_type = 'unknown'
                 elif script.script_types[0][:13] == 'p2sh_multisig' or script.script_types[0] =='signature_multisig':
@@ -998,7 +1001,7 @@ class Transaction(object):
                 elif 'unknown' in script.script_types and not coinbase:
                     inputs[n].script_type = 'unknown'
 
-                inputs[n].update_scripts()
+                inputs[n].update_scripts(hash_type=inputs[n].hash_type or SIGHASH_ALL)
 
         locktime_bytes = rawtx.read(4)[::-1]
         if len(locktime_bytes) != 4 and strict:
